@@ -35,7 +35,7 @@ class Prop:
             setattr(self, k, v)
 
     def execute(self, scn, seed, plans=None):
-        return runner.execute(scn, seed, plans)
+        return runner.execute(scn, seed, plans, keep=True)
 
 
 PROPS = {}
@@ -74,3 +74,108 @@ reg("C08", GEN_TXT + "histories of runs that succeed, fail, are aborted by SIGIN
     "clock gaps of 0 s, sub-second, backwards steps and restores of archives whose timestamps lie in the "
     "future; distinct = distinct (shape, digest); non-trivial = an experiment was spawned (freshness checked) "
     "or an operation ran while recorded versions existed (tree hashes compared)", quick_count=1200)
+
+
+# ---------------------------------------------------------------------------------------------
+# enumerating properties
+
+import copy as _copy
+import random as _random
+
+from . import enumerate as E
+from . import model as M
+
+
+class EnumProp(Prop):
+    level = "fault_enumeration"
+    quick_twice = 0
+    level_text = ("fault enumeration: for each sampled scenario the fault (process kill at a syscall-adjacent "
+                  "instant / SIGINT or SIGTERM at an interpreter check point) is injected at every enumerated "
+                  "instant of one operation (all of them in the thorough tier when they fit the budget, a seeded "
+                  "sample biased to the write-heavy region in the quick tier) and the invariant is evaluated on "
+                  "the surviving state each time; exhaustive per sampled scenario only")
+    technique = ("deterministic simulation with fault injection: enumeration of crash points (fork + os._exit) / "
+                 "signal delivery points under a seeded scenario and schedule search")
+
+
+class C06Prop(EnumProp):
+    def execute(self, scn, seed, plans=None):
+        enum = scn.get("enum")
+        records, info = [], {}
+
+        def hook(i, st, world, op):
+            if not enum or i != enum["step"] or op["op"] not in ("run", "restore", "archive", "gc"):
+                return None
+            work = world.root.parent
+            r = _random.Random(seed ^ 0xC06)
+            git = M.GitView(_copy.deepcopy(world.git_state), getattr(world, "disable_git", False))
+            before = st.before
+
+            def evaluate(k, inv, snap, sw):
+                arch = sw.op(op).get("archive_path")
+                return oracles.durable_violations(scn, op, git, before, snap, inv.trace, sw.dst / "proj", arch)
+
+            recs, total, exh = E.kill_enumeration(world, op, work, enum["budget"], r, evaluate)
+            for rec in recs:
+                rec.update(step=i, op=op["op"])
+            records.extend(recs)
+            info.update(total=total, exhaustive=exh, tried=len(recs), op=op["op"])
+            return None
+
+        run = runner.execute(scn, seed, plans, hook=hook, keep=True)
+        run.enum = records
+        run.enum_info = info
+        return run
+
+
+PROPS["C06"] = C06Prop(
+    "C06", profiles.GEN["C06"], oracles.CHECKS["C06"],
+    "scenario = small project + history of run / archive / clean / restore / gc (tasks succeed, fail, die) "
+    "with optional git; one operation of the history is chosen and the cond process is killed at enumerated "
+    "syscall-adjacent instants (CALL / C_RETURN of C functions in conductor.*, subprocess, shutil, sqlite) in a "
+    "forked copy; after every kill and after every completed operation the invariant 'every row has a complete "
+    "directory, produced by an execution that exited 0, with HEAD's commit and dirty flag' is evaluated on disk. "
+    "evaluations = scenarios + kill points; distinct = distinct (shape, digest); non-trivial = a kill actually "
+    "fired or new rows appeared",
+    quick_count=320, quick_budget=90.0)
+
+
+class C12Prop(EnumProp):
+    def execute(self, scn, seed, plans=None):
+        enum = scn.get("enum")
+        records, info = [], {}
+
+        def hook(i, st, world, op):
+            if not enum or i != enum["step"] or op["op"] != "restore":
+                return None
+            work = world.root.parent
+            r = _random.Random(seed ^ 0xC12)
+            before = st.before
+            arch_rows = st.archive_info
+
+            def evaluate(k, inv, snap, sw):
+                return oracles.restore_violations(before, snap, inv.code, inv.killed, arch_rows)
+
+            recs, total, exh = E.kill_enumeration(world, op, work, enum["budget"], r, evaluate)
+            for rec in recs:
+                rec.update(step=i, op=op["op"])
+            records.extend(recs)
+            info.update(total=total, exhaustive=exh, tried=len(recs), op=op["op"])
+            return None
+
+        run = runner.execute(scn, seed, plans, hook=hook, keep=True)
+        run.enum = records
+        run.enum_info = info
+        return run
+
+
+PROPS["C12"] = C12Prop(
+    "C12", profiles.GEN["C12"], oracles.CHECKS["C12"],
+    "scenario = small project + runs + archive (all / --latest / task closure) + prior state for the restore "
+    "(cleaned, cleaned and re-run, kept => duplicate rows, unrecorded directory planted where a version will be "
+    "copied) + one corruption of the archive (missing index, missing member, truncation at 10/50/90 %, garbage, "
+    "index not SQLite) or none; the restore is additionally killed at enumerated syscall-adjacent instants in a "
+    "forked copy. Oracle: not successful => rows and every recorded tree unchanged; successful => every archive "
+    "row recorded with its directory. evaluations = scenarios + kill points; non-trivial = a restore was executed "
+    "(distinct by outcome x corruption x prior state) or a kill fired",
+    quick_count=320, quick_budget=90.0)
